@@ -1,5 +1,5 @@
 (* GenMedia.v - GENERATED from /repo by /verif/translator; do not edit.
-   source cssutils/stylesheets/mediaquery.py sha1 acbfe5b0c319
+   source cssutils/stylesheets/mediaquery.py sha1 c3549c265c12
    source cssutils/stylesheets/medialist.py sha1 c0f2f1bdb301
 *)
 From Coq Require Import List NArith ZArith Bool.
